@@ -13,7 +13,11 @@ SCALES = {"2^-20": 2.0**-20, "1": 1.0, "1e4": 1e4, "2^28": 2.0**28, "1e12": 1e12
 def build_input(case):
     """case: {'arg':..., 'mut':[counts], 'scale':name, 'H':{'kind':...}, 'above_root':0/1}"""
     ts = tsspace.arg_ts(case["arg"])
-    ts = tsspace.add_mutations(ts, case["mut"], above_root=case.get("above_root", 0), recurrent=case.get("recurrent", False))
+    mut = case["mut"]
+    if case.get("K"):  # missing data: sample K[0] isolated over locus K[1] (re-simplified); the pattern is cycled to fit
+        ts = tsspace.isolate_sample(ts, case["K"][0], [case["K"][1]])
+        mut = (list(mut) * (ts.num_edges // max(1, len(mut)) + 1))[: ts.num_edges]
+    ts = tsspace.add_mutations(ts, mut, above_root=case.get("above_root", 0), recurrent=case.get("recurrent", False))
     if case.get("merge_sites"):
         ts = tsspace.merge_sites_per_locus(ts)
     s = SCALES[case.get("scale", "1")]
